@@ -42,7 +42,7 @@ func project(t *hx.TableInfo, full []hx.Row, cols []string) ([]hx.Row, bool) {
 	for i, c := range cols {
 		idx[i] = -1
 		for j, n := range names {
-			if strings.EqualFold(n, c) {
+			if hx.SameName(n, c) {
 				idx[i] = j + off
 				break
 			}
@@ -267,7 +267,7 @@ func lowLevelScan(run *hx.Run, low *sdb.Database, d *hx.DB, t *hx.TableInfo, ful
 					return true
 				}
 				for c := 0; c < len(rec); c++ {
-					if t.RowidAlias != nil && strings.EqualFold(*t.RowidAlias, names[c]) {
+					if t.RowidAlias != nil && hx.SameName(*t.RowidAlias, names[c]) {
 						if rec[c] != nil {
 							bad = fmt.Sprintf("record %d: rowid alias column stored as %s", i, hx.ValueString(rec[c]))
 							return true
